@@ -1042,7 +1042,8 @@ def numberings(G, rng, cap):
         for perm in itertools.permutations(range(n)):
             take(perm)
         return out
-    take(tuple(range(n)))                       # numbered as constructed
+    if cap > 2:
+        take(tuple(range(n)))                   # numbered as constructed
     tries = 0
     while len(out) < cap and tries < 30 * cap:
         take(tuple(rng.sample(range(n), n)))
@@ -1066,9 +1067,9 @@ for name, shape in labelling_shapes():
         chk.count('labelling_shape_aut_gt_%d' % MAX_AUT)
         if not chk.thorough:
             continue
-        cap = min(cap, 4)
-    elif shape_aut > 100 and not chk.thorough:
-        cap = min(cap, 3)                                # K3_4, star5, two 4-rings
+        cap = 1 if n == 8 else 2                         # two K4: half a minute per pair
+    elif shape_aut > 100:
+        cap = min(cap, 40 if chk.thorough else 3)        # K3_4, star5, K5, two 4-rings
     labelled = numberings(shape, rng, cap)
     chk.count('labelling_shape_n=%d' % n)
     _t_shape = time.time()
@@ -1080,8 +1081,8 @@ for name, shape in labelling_shapes():
             chk.count('labelling_keys_noncontiguous')
         n_lab_pat += 1
         variants = ['copy', 'pendant', 'edge'] if (chk.thorough or not big) else [('copy', 'pendant', 'edge')[li % 3]]
-        if shape_aut > MAX_AUT:
-            variants = ['copy', 'pendant']
+        if shape_aut > 100 and big:
+            variants = ['copy', 'pendant'] if chk.thorough else variants[:1]
         if not chk.thorough and not big and n == 5 and len(labelled) > 20:
             variants = [('copy', 'pendant', 'edge')[li % 3]]      # path5, spider112: 60 numberings each
         for var in variants:
